@@ -528,6 +528,7 @@ def rule_G(ctx):
         nonlocal n_cases
         n_cases += 1
         t = build(pts, times)
+        given = list(t.fields['_Track__POINTS'])      # the caller's observations (a second track may hold the very same objects: Track % n, Track(list))
         case = {'track': label, 'vertices': [list(p_) for p_ in pts], 'times (s)': times, 'request': request_desc, 'mode': 'temporal' if mode == consts['MODE_TEMPORAL'] else 'spatial'}
         try:
             t.call('resample', make_request(), consts['ALGO_LINEAR'], mode)
@@ -552,6 +553,19 @@ def rule_G(ctx):
             found.setdefault((case['mode'], 'monotone'), ('timestamps of the result never decrease', dict(case, times=[g_[1] for g_ in got])))
         if names:
             found.setdefault((case['mode'], 'table'), ('the feature table is reset by resampling', dict(case, **{'features listed': names})))
+        # the observations the track was built from are moved afterwards (another track holding them is translated): the samples stay where they are
+        for o in given:
+            p_ = o.fields.get('position')
+            if isinstance(p_, orders.Obj) and 'E' in p_.fields:
+                p_.fields['E'] += 1000.0
+                p_.fields['N'] -= 500.0
+        again = [(obs_view(o)[0], secs(obs_view(o)[1])) for o in t.fields['_Track__POINTS']]
+        for k, ((gp, gt), (wp, wt)) in enumerate(zip(again, want)):
+            if not near(gp, wp):
+                found.setdefault((case['mode'], 'alias'), ('the samples are observations of their own: moving, afterwards, the observations the track was made of (held by another track) does not move a sample',
+                                                           dict(case, index=k, history='after resampling, the original observation objects are translated by (+1000, -500)',
+                                                                returned={'position': list(gp)}, expected={'position': [round(c_, 6) for c_ in wp]})))
+                break
     TEMP, SPAT = consts['MODE_TEMPORAL'], consts['MODE_SPATIAL']
     for label, (pts, times) in tracks.items():
         E0[0] = EPOCH_NEW_YEAR if 'New Year' in label else (0.0 if 'epoch itself' in label else EPOCH_DEFAULT)
